@@ -1,6 +1,9 @@
 package checks
 
-import "fmt"
+import (
+	"fmt"
+	"sort"
+)
 
 // C15: character classes and literals denote exact code-point sets.
 func C15(c *Ctx) int {
@@ -77,6 +80,10 @@ func C15(c *Ctx) int {
 			Params: map[string]int{"ka": sh[0], "kb": sh[1]}, Reach: []string{"difference"},
 			Bounds: fmt.Sprintf("class of %d items minus class of %d items, each side possibly negated", sh[0], sh[1])})
 	}
+	// the harnesses that go beyond the quick bounds run last (time budget)
+	deep := map[string]bool{"rang3.Flatten[k=4]": true, "rang3.Subtract[ka=3,kb=1]": true, "rang3.Subtract[ka=1,kb=3]": true, "rang3.Subtract[ka=3,kb=2]": true,
+		"rang3.Subtract[ka=2,kb=3]": true, "ast.ClassRanges[k=3]": true, "mode.NormalizeInputs[k=4]": true, "ast.ClassDifference[2-1]": true, "ast.ClassDifference[1-2]": true}
+	sort.SliceStable(hs, func(a, b int) bool { return !deep[hs[a].Name] && deep[hs[b].Name] })
 	for _, h := range hs {
 		r, err := c.RunHarness(prog, h)
 		if err != nil {
